@@ -174,6 +174,47 @@ def run(ctx):
             r.check(ok, "%s::%s" % (cls, meth), "zeroes %s assigns %s" % (sorted(z), sorted(a_)),
                     "zeroes %s, assigns %s; expected %s / %s on top of the wrapped %s" % (sorted(z), sorted(a_), sorted(zeroed), sorted(assigned), meth), f)
 
+    # what the checksum of a link / a file is computed from
+    rsrc = rep.rule("R-CHECKSUM-SOURCE", "in checksum-only mode the checksum describes the content: for a file the digest of the file at `path` (through the wrapped file "
+                                         "system), for a symbolic link the digest of the link's target string as returned by readlink for that `path` — never a value "
+                                         "that stays the same when the content changes (the link's own name, a constant)", floor=3)
+    from sa.flow import taint_closure, mentions as _mn
+    for f in prog.functions.values():
+        if not f.cls.endswith("ChecksumOnlyFileSystem") or f.is_lambda:
+            continue
+        short = f.name.split("::")[-1]
+        if short == "getFileInfo":
+            cs = [c for c in f.calls() if (c.get("fn") or "").endswith("getFileChecksum")]
+            okc = len(cs) == 1 and expr_plain(arg_nodes(cs[0])[0]) == "path" and any(
+                n.get("k") in ("bin", "call") and n.get("op") == "=" and "info.checksum" in expr_str(n.child("l") if n.get("k") == "bin" else n.child("obj")) and any(x is cs[0] for x in n.walk())
+                for n in f.nodes)
+            rsrc.check(okc, "ChecksumOnlyFileSystem::getFileInfo|digest-of-path", "", "info.checksum is not the wrapped file system's checksum of `path`", f)
+        if short == "getLinkInfo":
+            rl = [c for c in f.calls() if (c.get("fn") or "") in ("readlink", "::readlink")]
+            hs = [c for c in f.calls("readPathStringAndDigest")]
+            okl = len(rl) == 1 and len(hs) == 1 and expr_plain(arg_nodes(rl[0])[0]) == "path.c_str()"
+            why = "readlink(path) / one digest call not found"
+            if okl:
+                buf = strip_casts(arg_nodes(rl[0])[1])
+                tb = taint_closure(f, {buf.get("did")}) if buf is not None and buf.get("did") is not None else set()
+                hobj = hs[0].child("obj")
+                src_ok = hobj is not None and _mn(hobj, tb)
+                pd = [p_["did"] for p_ in f.params if p_["n"] == "path"]
+                from_path_only = hobj is not None and _mn(hobj, set(pd)) and not src_ok
+                okl = src_ok and "info.checksum" in expr_str(arg_nodes(hs[0])[0])
+                why = "the link checksum is computed from %s, not from the target string readlink returned" % (expr_plain(hobj)[:50] if hobj is not None else "?")
+                lenv = [v for d in f.nodes if d.get("k") == "decl" for v in d["vars"] if "init" in v and any(x is rl[0] for x in f.nodes[v["init"]].walk())]
+                # the buffer is terminated at the returned length before use
+                term = [n for n in f.nodes if n.get("k") == "bin" and n["op"] == "=" and n.child("l").get("k") == "index" and core(n.child("r")).get("v") == 0]
+                okl = okl and (bool(term) or "len" in expr_str(hobj))
+            rsrc.check(okl, "ChecksumOnlyFileSystem::getLinkInfo|digest-of-link-target", "", why, f)
+    for f in prog.functions.values():
+        if f.name.endswith("FileChecksumHasher::readPathStringAndDigest") and not f.is_lambda:
+            up_ = [c for c in f.calls() if (c.get("fn") or "").endswith("::update")]
+            okp = len(up_) == 1 and "path" in expr_str(arg_nodes(up_[0])[0]) and expr_plain(arg_nodes(up_[0])[1]) == "path.size()" and \
+                bool(f.calls("finalize")) and bool(f.calls("copy"))
+            rsrc.check(okp, "readPathStringAndDigest|whole-string", "", "the string digest does not cover the whole string", f)
+
     r = rep.rule("R-HASHER-DEFUSE", "in every FileChecksumHasher implementation every member copy() reads is written by finalize(); no local of "
                                     "finalize/update/copy shadows a data member", floor=2)
     subs = prog.subclasses("FileChecksumHasher")
@@ -264,6 +305,12 @@ def run(ctx):
 
 
 VARIANTS = [
+    dict(name="link-checksum-from-link-name", file="include/llbuild/Basic/FileSystem.h",
+         old="      PlatformSpecificHasher(std::string(buff)).readPathStringAndDigest(info.checksum);", new="      PlatformSpecificHasher(path).readPathStringAndDigest(info.checksum);",
+         expect=("R-CHECKSUM-SOURCE", "digest-of-link-target")),
+    dict(name="benign-link-target-named-local", file="include/llbuild/Basic/FileSystem.h",
+         old="      PlatformSpecificHasher(std::string(buff)).readPathStringAndDigest(info.checksum);", new="      std::string target(buff, len);\n      PlatformSpecificHasher(target).readPathStringAndDigest(info.checksum);",
+         expect=None),
     dict(name="hash-stops-after-first-block", file="include/llbuild/Basic/FileInfo.h", old="        update(buffer, bytesRead);\n      }", new="        update(buffer, bytesRead);\n        if (bytesRead <= sizeof(buffer))\n          break;\n      }",
          expect=("R-HASH-WHOLE-FILE", "loop-ends-only-at-eof")),
     dict(name="hash-update-with-buffer-size", file="include/llbuild/Basic/FileInfo.h", old="        update(buffer, bytesRead);", new="        update(buffer, sizeof(buffer));", expect=("R-HASH-WHOLE-FILE", "every-block-digested")),
